@@ -427,3 +427,572 @@ func (*accState).Reset
   modifies s.kind, s.sum, s.count, s.num, s.hasNum, s.started
   ensures keeps-only-the-kind: s.kind == old(s.kind) && s.sum == 0.0 && s.count == 0 && !s.hasNum && !s.started
 @*/
+
+/*@
+// ---------------------------------------------------------------- C06: built-in scalar functions never panic on validated arguments
+func (*AbsFunction).Execute
+  props C06
+  option safety
+  requires validated-arguments: f != nil && len(args) >= 1 && len(args) <= 1
+  modifies *
+
+func (*SqrtFunction).Execute
+  props C06
+  option safety
+  requires validated-arguments: f != nil && len(args) >= 1 && len(args) <= 1
+  modifies *
+
+func (*AcosFunction).Execute
+  props C06
+  option safety
+  requires validated-arguments: f != nil && len(args) >= 1 && len(args) <= 1
+  modifies *
+
+func (*AsinFunction).Execute
+  props C06
+  option safety
+  requires validated-arguments: f != nil && len(args) >= 1 && len(args) <= 1
+  modifies *
+
+func (*AtanFunction).Execute
+  props C06
+  option safety
+  requires validated-arguments: f != nil && len(args) >= 1 && len(args) <= 1
+  modifies *
+
+func (*Atan2Function).Execute
+  props C06
+  option safety
+  requires validated-arguments: f != nil && len(args) >= 2 && len(args) <= 2
+  modifies *
+
+func (*BitAndFunction).Execute
+  props C06
+  option safety
+  requires validated-arguments: f != nil && len(args) >= 2 && len(args) <= 2
+  modifies *
+
+func (*BitOrFunction).Execute
+  props C06
+  option safety
+  requires validated-arguments: f != nil && len(args) >= 2 && len(args) <= 2
+  modifies *
+
+func (*BitXorFunction).Execute
+  props C06
+  option safety
+  requires validated-arguments: f != nil && len(args) >= 2 && len(args) <= 2
+  modifies *
+
+func (*BitNotFunction).Execute
+  props C06
+  option safety
+  requires validated-arguments: f != nil && len(args) >= 1 && len(args) <= 1
+  modifies *
+
+func (*CosFunction).Execute
+  props C06
+  option safety
+  requires validated-arguments: f != nil && len(args) >= 1 && len(args) <= 1
+  modifies *
+
+func (*CoshFunction).Execute
+  props C06
+  option safety
+  requires validated-arguments: f != nil && len(args) >= 1 && len(args) <= 1
+  modifies *
+
+func (*ExpFunction).Execute
+  props C06
+  option safety
+  requires validated-arguments: f != nil && len(args) >= 1 && len(args) <= 1
+  modifies *
+
+func (*FloorFunction).Execute
+  props C06
+  option safety
+  requires validated-arguments: f != nil && len(args) >= 1 && len(args) <= 1
+  modifies *
+
+func (*LnFunction).Execute
+  props C06
+  option safety
+  requires validated-arguments: f != nil && len(args) >= 1 && len(args) <= 1
+  modifies *
+
+func (*LogFunction).Execute
+  props C06
+  option safety
+  requires validated-arguments: f != nil && len(args) >= 1 && len(args) <= 1
+  modifies *
+
+func (*Log10Function).Execute
+  props C06
+  option safety
+  requires validated-arguments: f != nil && len(args) >= 1 && len(args) <= 1
+  modifies *
+
+func (*Log2Function).Execute
+  props C06
+  option safety
+  requires validated-arguments: f != nil && len(args) >= 1 && len(args) <= 1
+  modifies *
+
+func (*ModFunction).Execute
+  props C06
+  option safety
+  requires validated-arguments: f != nil && len(args) >= 2 && len(args) <= 2
+  modifies *
+
+func (*RandFunction).Execute
+  props C06
+  option safety
+  requires validated-arguments: f != nil && len(args) >= 0 && len(args) <= 0
+  modifies *
+
+func (*RoundFunction).Execute
+  props C06
+  option safety
+  requires validated-arguments: f != nil && len(args) >= 1 && len(args) <= 2
+  modifies *
+
+func (*SignFunction).Execute
+  props C06
+  option safety
+  requires validated-arguments: f != nil && len(args) >= 1 && len(args) <= 1
+  modifies *
+
+func (*SinFunction).Execute
+  props C06
+  option safety
+  requires validated-arguments: f != nil && len(args) >= 1 && len(args) <= 1
+  modifies *
+
+func (*SinhFunction).Execute
+  props C06
+  option safety
+  requires validated-arguments: f != nil && len(args) >= 1 && len(args) <= 1
+  modifies *
+
+func (*TanFunction).Execute
+  props C06
+  option safety
+  requires validated-arguments: f != nil && len(args) >= 1 && len(args) <= 1
+  modifies *
+
+func (*TanhFunction).Execute
+  props C06
+  option safety
+  requires validated-arguments: f != nil && len(args) >= 1 && len(args) <= 1
+  modifies *
+
+func (*ConcatFunction).Execute
+  props C06
+  option safety
+  requires validated-arguments: f != nil && len(args) >= 1
+  modifies *
+
+func (*UpperFunction).Execute
+  props C06
+  option safety
+  requires validated-arguments: f != nil && len(args) >= 1 && len(args) <= 1
+  modifies *
+
+func (*LowerFunction).Execute
+  props C06
+  option safety
+  requires validated-arguments: f != nil && len(args) >= 1 && len(args) <= 1
+  modifies *
+
+func (*TrimFunction).Execute
+  props C06
+  option safety
+  requires validated-arguments: f != nil && len(args) >= 1 && len(args) <= 1
+  modifies *
+
+func (*FormatFunction).Execute
+  props C06
+  option safety
+  requires validated-arguments: f != nil && len(args) >= 1 && len(args) <= 3
+  modifies *
+
+func (*EndswithFunction).Execute
+  props C06
+  option safety
+  requires validated-arguments: f != nil && len(args) >= 2 && len(args) <= 2
+  modifies *
+
+func (*StartswithFunction).Execute
+  props C06
+  option safety
+  requires validated-arguments: f != nil && len(args) >= 2 && len(args) <= 2
+  modifies *
+
+func (*IndexofFunction).Execute
+  props C06
+  option safety
+  requires validated-arguments: f != nil && len(args) >= 2 && len(args) <= 2
+  modifies *
+
+func (*SubstringFunction).Execute
+  props C06
+  option safety
+  requires validated-arguments: f != nil && len(args) >= 2 && len(args) <= 3
+  modifies *
+
+func (*ReplaceFunction).Execute
+  props C06
+  option safety
+  requires validated-arguments: f != nil && len(args) >= 3 && len(args) <= 3
+  modifies *
+
+func (*SplitFunction).Execute
+  props C06
+  option safety
+  requires validated-arguments: f != nil && len(args) >= 2 && len(args) <= 2
+  modifies *
+
+func (*LpadFunction).Execute
+  props C06
+  option safety overflow
+  requires validated-arguments: f != nil && len(args) >= 2 && len(args) <= 3
+  modifies *
+
+func (*RpadFunction).Execute
+  props C06
+  option safety overflow
+  requires validated-arguments: f != nil && len(args) >= 2 && len(args) <= 3
+  modifies *
+
+func (*LtrimFunction).Execute
+  props C06
+  option safety
+  requires validated-arguments: f != nil && len(args) >= 1 && len(args) <= 1
+  modifies *
+
+func (*RtrimFunction).Execute
+  props C06
+  option safety
+  requires validated-arguments: f != nil && len(args) >= 1 && len(args) <= 1
+  modifies *
+
+func (*RegexpMatchesFunction).Execute
+  props C06
+  option safety
+  requires validated-arguments: f != nil && len(args) >= 2 && len(args) <= 2
+  modifies *
+
+func (*RegexpReplaceFunction).Execute
+  props C06
+  option safety
+  requires validated-arguments: f != nil && len(args) >= 3 && len(args) <= 3
+  modifies *
+
+func (*RegexpSubstringFunction).Execute
+  props C06
+  option safety
+  requires validated-arguments: f != nil && len(args) >= 2 && len(args) <= 2
+  modifies *
+
+func (*CastFunction).Execute
+  props C06
+  option safety
+  requires validated-arguments: f != nil && len(args) >= 2 && len(args) <= 2
+  modifies *
+
+func (*Hex2DecFunction).Execute
+  props C06
+  option safety
+  requires validated-arguments: f != nil && len(args) >= 1 && len(args) <= 1
+  modifies *
+
+func (*Dec2HexFunction).Execute
+  props C06
+  option safety
+  requires validated-arguments: f != nil && len(args) >= 1 && len(args) <= 1
+  modifies *
+
+func (*EncodeFunction).Execute
+  props C06
+  option safety
+  requires validated-arguments: f != nil && f.BaseFunction != nil && f.BaseFunction.minArgs == 2 && len(args) >= 2 && len(args) <= 2
+  modifies *
+
+func (*DecodeFunction).Execute
+  props C06
+  option safety
+  requires validated-arguments: f != nil && f.BaseFunction != nil && f.BaseFunction.minArgs == 2 && len(args) >= 2 && len(args) <= 2
+  modifies *
+
+func (*ConvertTzFunction).Execute
+  props C06
+  option safety
+  requires validated-arguments: f != nil && len(args) >= 2 && len(args) <= 2
+  modifies *
+
+func (*ToSecondsFunction).Execute
+  props C06
+  option safety
+  requires validated-arguments: f != nil && len(args) >= 1 && len(args) <= 1
+  modifies *
+
+func (*ChrFunction).Execute
+  props C06
+  option safety
+  requires validated-arguments: f != nil && len(args) >= 1 && len(args) <= 1
+  modifies *
+
+func (*UrlEncodeFunction).Execute
+  props C06
+  option safety
+  requires validated-arguments: f != nil && len(args) >= 1 && len(args) <= 1
+  modifies *
+
+func (*UrlDecodeFunction).Execute
+  props C06
+  option safety
+  requires validated-arguments: f != nil && len(args) >= 1 && len(args) <= 1
+  modifies *
+
+func (*TruncFunction).Execute
+  props C06
+  option safety
+  requires validated-arguments: f != nil && len(args) >= 2 && len(args) <= 2
+  modifies *
+
+func (*IfNullFunction).Execute
+  props C06
+  option safety
+  requires validated-arguments: f != nil && len(args) >= 2 && len(args) <= 2
+  modifies *
+
+func (*CoalesceFunction).Execute
+  props C06
+  option safety
+  requires validated-arguments: f != nil && len(args) >= 1
+  modifies *
+
+func (*NullIfFunction).Execute
+  props C06
+  option safety
+  requires validated-arguments: f != nil && len(args) >= 2 && len(args) <= 2
+  modifies *
+
+func (*GreatestFunction).Execute
+  props C06
+  option safety
+  requires validated-arguments: f != nil && len(args) >= 1
+  modifies *
+
+func (*LeastFunction).Execute
+  props C06
+  option safety
+  requires validated-arguments: f != nil && len(args) >= 1
+  modifies *
+
+func (*CaseWhenFunction).Execute
+  props C06
+  option safety
+  requires validated-arguments: f != nil && len(args) >= 2
+  modifies *
+
+func (*IsNullFunction).Execute
+  props C06
+  option safety
+  requires validated-arguments: f != nil && len(args) >= 1 && len(args) <= 1
+  modifies *
+
+func (*IsNotNullFunction).Execute
+  props C06
+  option safety
+  requires validated-arguments: f != nil && len(args) >= 1 && len(args) <= 1
+  modifies *
+
+func (*IsNumericFunction).Execute
+  props C06
+  option safety
+  requires validated-arguments: f != nil && len(args) >= 1 && len(args) <= 1
+  modifies *
+
+func (*IsStringFunction).Execute
+  props C06
+  option safety
+  requires validated-arguments: f != nil && len(args) >= 1 && len(args) <= 1
+  modifies *
+
+func (*IsBoolFunction).Execute
+  props C06
+  option safety
+  requires validated-arguments: f != nil && len(args) >= 1 && len(args) <= 1
+  modifies *
+
+func (*IsArrayFunction).Execute
+  props C06
+  option safety
+  requires validated-arguments: f != nil && len(args) >= 1 && len(args) <= 1
+  modifies *
+
+func (*IsObjectFunction).Execute
+  props C06
+  option safety
+  requires validated-arguments: f != nil && len(args) >= 1 && len(args) <= 1
+  modifies *
+
+func (*Md5Function).Execute
+  props C06
+  option safety
+  requires validated-arguments: f != nil && len(args) >= 1 && len(args) <= 1
+  modifies *
+
+func (*Sha1Function).Execute
+  props C06
+  option safety
+  requires validated-arguments: f != nil && len(args) >= 1 && len(args) <= 1
+  modifies *
+
+func (*Sha256Function).Execute
+  props C06
+  option safety
+  requires validated-arguments: f != nil && len(args) >= 1 && len(args) <= 1
+  modifies *
+
+func (*Sha512Function).Execute
+  props C06
+  option safety
+  requires validated-arguments: f != nil && len(args) >= 1 && len(args) <= 1
+  modifies *
+
+func (*ArrayLengthFunction).Execute
+  props C06
+  option safety
+  requires validated-arguments: f != nil && len(args) >= 1 && len(args) <= 1
+  modifies *
+
+func (*ArrayContainsFunction).Execute
+  props C06
+  option safety
+  requires validated-arguments: f != nil && len(args) >= 2 && len(args) <= 2
+  modifies *
+
+func (*ArrayPositionFunction).Execute
+  props C06
+  option safety
+  requires validated-arguments: f != nil && len(args) >= 2 && len(args) <= 2
+  modifies *
+
+func (*ArrayRemoveFunction).Execute
+  props C06
+  option safety
+  requires validated-arguments: f != nil && len(args) >= 2 && len(args) <= 2
+  modifies *
+
+func (*ArrayDistinctFunction).Execute
+  props C06
+  option safety
+  requires validated-arguments: f != nil && len(args) >= 1 && len(args) <= 1
+  modifies *
+
+func (*ArrayIntersectFunction).Execute
+  props C06
+  option safety
+  requires validated-arguments: f != nil && len(args) >= 2 && len(args) <= 2
+  modifies *
+
+func (*ArrayUnionFunction).Execute
+  props C06
+  option safety
+  requires validated-arguments: f != nil && len(args) >= 2 && len(args) <= 2
+  modifies *
+
+func (*ArrayExceptFunction).Execute
+  props C06
+  option safety
+  requires validated-arguments: f != nil && len(args) >= 2 && len(args) <= 2
+  modifies *
+
+func (*ToJsonFunction).Execute
+  props C06
+  option safety
+  requires validated-arguments: f != nil && len(args) >= 1 && len(args) <= 1
+  modifies *
+
+func (*FromJsonFunction).Execute
+  props C06
+  option safety
+  requires validated-arguments: f != nil && len(args) >= 1 && len(args) <= 1
+  modifies *
+
+func (*JsonExtractFunction).Execute
+  props C06
+  option safety
+  requires validated-arguments: f != nil && len(args) >= 2 && len(args) <= 2
+  modifies *
+
+func (*JsonValidFunction).Execute
+  props C06
+  option safety
+  requires validated-arguments: f != nil && len(args) >= 1 && len(args) <= 1
+  modifies *
+
+func (*JsonTypeFunction).Execute
+  props C06
+  option safety
+  requires validated-arguments: f != nil && len(args) >= 1 && len(args) <= 1
+  modifies *
+
+func (*JsonLengthFunction).Execute
+  props C06
+  option safety
+  requires validated-arguments: f != nil && len(args) >= 1 && len(args) <= 1
+  modifies *
+
+@*/
+
+/*@
+// arity bookkeeping shared by every built-in: Validate == nil means the argument count is inside [minArgs, maxArgs]
+func (*BaseFunction).ValidateArgCount
+  props C06
+  option safety
+  requires bf != nil
+  ensures accepted-counts-are-inside-the-declared-arity: result == nil <==> (len(args) >= bf.minArgs && (bf.maxArgs == -1 || len(args) <= bf.maxArgs))
+
+func (*BaseFunction).Validate
+  props C06
+  option safety
+  requires bf != nil
+  ensures accepted-counts-are-inside-the-declared-arity: result == nil <==> (len(args) >= bf.minArgs && (bf.maxArgs == -1 || len(args) <= bf.maxArgs))
+
+func (*EncodeFunction).Validate
+  props C06
+  option safety
+  requires f != nil && f.BaseFunction != nil && f.BaseFunction.minArgs == 2
+  ensures accepted-arguments-have-a-textual-format: result == nil ==> len(args) >= 2 && hasType(args[1], string)
+
+func (*DecodeFunction).Validate
+  props C06
+  option safety
+  requires f != nil && f.BaseFunction != nil && f.BaseFunction.minArgs == 2
+  ensures accepted-arguments-are-textual: result == nil ==> len(args) >= 2 && hasType(args[0], string) && hasType(args[1], string)
+@*/
+
+/*@
+func (*CeilingFunction).Execute
+  props C06
+  option safety
+  requires validated-arguments: f != nil && len(args) >= 1 && len(args) <= 1
+  ensures smallest-integer-not-below: second(cast.ToFloat64E(args[0])) == nil ==> result1 == nil && result0 == boxof(0.0 - floor(0.0 - cast.ToFloat64E(args[0])), float64)
+  ensures non-numeric-argument-is-an-error-not-a-panic: !(second(cast.ToFloat64E(args[0])) == nil) ==> result1 != nil && result0 == nil
+
+func (*PowerFunction).Execute
+  props C06
+  option safety
+  requires validated-arguments: f != nil && len(args) >= 2 && len(args) <= 2
+  modifies *
+
+func (*LengthFunction).Execute
+  props C06
+  option safety
+  requires validated-arguments: f != nil && len(args) >= 1 && len(args) <= 1
+  modifies *
+
+@*/
